@@ -145,7 +145,7 @@ def main(tier):
         rej = [i for i in insts if i["rejected"] and len(i["g"]["insts"]) < 3][:100]
         acc = [i for i in insts if not i["rejected"] and len(i["g"]["insts"]) < 3][:350]
         insts = three + rej + acc
-    res = C.fork_map(pair_worker, [(inst, k) for k, inst in enumerate(insts)], timeout=300)
+    res = C.fork_map(pair_worker, [(inst, k) for k, inst in enumerate(insts)], timeout=1200)
     traces, meta = [], {}
     disagreements = 0
     for k, (inst, r) in enumerate(zip(insts, res)):
